@@ -3,7 +3,7 @@
     No Extract Constant / Extract Inductive directive of our own. *)
 Require Extraction.
 Require Import ExtrOcamlBasic.
-From ZV Require Import Base.Bytes Base.Res Spec.Rfc23 Model.Codec Spec.Stream Spec.Compat Model.Handshake Model.World Model.FairQueue Model.TrySend.
+From ZV Require Import Base.Bytes Base.Res Spec.Rfc23 Model.Codec Spec.Stream Spec.Compat Model.Handshake Model.World Model.FairQueue Model.TrySend Model.Proxy.
 Extraction Language OCaml.
 Separate Extraction
   Bytes.be Bytes.of_be Bytes.lenN Bytes.is_prefix
@@ -15,4 +15,5 @@ Separate Extraction
   Handshake.handshake_verdict Handshake.compatible Compat.rfc_compat Codec.stype_idx Codec.stype_name
   World.world0 World.step World.rep_split World.req_unwrap World.req_wrap World.rep_wrap World.on_sub_msg World.matches
   FairQueue.fq0 FairQueue.step FairQueue.poll FairQueue.drain FairQueue.left_items FairQueue.some_registered_ready
-  TrySend.try_sends TrySend.sink0 TrySend.accepted Codec.encode_frames.
+  TrySend.try_sends TrySend.sink0 TrySend.accepted Codec.encode_frames
+  Proxy.pstate0 Proxy.proxy_settle Proxy.proxy_iter.
